@@ -39,6 +39,20 @@ try:
         sk = any(c.tag == 'skipped' for c in tc)
         res[name] = 'fail' if bad else ('skip' if sk else 'pass')
     missing = [n for n in base['stable_pass'] if res.get(n) != 'pass']
+    # a test that fails once is re-run on its own (ARPACK start vectors are random: known flaky eigen tests)
+    still = []
+    for n in missing:
+        mod, _, tn = n.partition("::")
+        nodeid = mod.replace(".", "/") + ".py::" + tn
+        ok = 0
+        for _ in range(3):
+            rr = subprocess.run(["/venv/bin/python", "-m", "pytest", "-q", "-p", "no:cacheprovider", nodeid], cwd=wt, env=env,
+                                capture_output=True, text=True)
+            ok += rr.returncode == 0
+        if ok < 3:
+            still.append(n)
+    out["flaky_rerun_passed"] = [n for n in missing if n not in still]
+    missing = still
     out["stable_pass_total"] = len(base['stable_pass'])
     out["stable_pass_not_passing_with_change"] = missing
     out["confirmed"] = (r0.returncode == 0 and r1.returncode != 0 and not missing)
